@@ -427,6 +427,35 @@ pub fn run(tier: &str, seed: u64, outdir: &str) {
             }
         }
     }
+    // ---------- non-revocation intervals of a request: an interval without bounds is an interval ----------
+    // each form at each of the three places; after a read and a write the place holds an object with the same bounds
+    // (null members dropped), not nothing
+    {
+        let forms = [json!({}), json!({"from": null, "to": null}), json!({"from": null}), json!({"from": 5}), json!({"to": 7}), json!({"from": 5, "to": 7}), json!({"from": 0, "to": 0})];
+        for (pi, place) in ["request", "attribute", "predicate"].iter().enumerate() {
+            for f in forms.iter() {
+                let mut d = json!({"nonce": "4711", "name": "r", "version": "0.1", "requested_attributes": {"a": {"name": "x"}}, "requested_predicates": {"p": {"name": "y", "p_type": ">=", "p_value": 1}}});
+                match pi { 0 => d["non_revoked"] = f.clone(), 1 => d["requested_attributes"]["a"]["non_revoked"] = f.clone(), _ => d["requested_predicates"]["p"]["non_revoked"] = f.clone() };
+                let res = std::panic::catch_unwind(|| serde_json::from_value::<PresentationRequest>(d.clone()).ok().and_then(|x| serde_json::to_value(&x).ok()));
+                let strip = |v: &Value| -> Option<Value> { v.as_object().map(|o| Value::Object(o.iter().filter(|(_, x)| !x.is_null()).map(|(k, x)| (k.clone(), x.clone())).collect())) };
+                let (same, o) = match res {
+                    Ok(Some(back)) => {
+                        let got = match pi { 0 => &back["non_revoked"], 1 => &back["requested_attributes"]["a"]["non_revoked"], _ => &back["requested_predicates"]["p"]["non_revoked"] };
+                        (strip(got).is_some() && strip(got) == strip(f), "read")
+                    }
+                    Ok(None) => (false, "unreadable"),
+                    Err(_) => (false, "panic"),
+                };
+                let id = out.next_id();
+                let stage = format!("interval:{}:{}", place, f);
+                out.case(
+                    &format!("(C15 {} H {} {} {} {} {})", id, sx::s("PresentationRequest"), sx::s(&stage), sx::boolean(same), sx::s("read"), sx::s(o)),
+                    "hop:interval-forms",
+                    || json!({"type": "PresentationRequest", "place": place, "interval": f, "same_document": same, "outcome": o}),
+                );
+            }
+        }
+    }
     // ---------- leaf preservation, every document type ----------
     // every string / number leaf of a valid document is replaced in turn by other values of the same JSON type;
     // when the edited document is still readable, writing it back must give the edited document
